@@ -28,3 +28,13 @@ pub fn k_posix_us_ambiguous(y: i16, m: i8, d: i8, h: i8, mi: i8, sec: i8, ns: i3
     let tz = f::posix_tz(-18000, -14400, 2, 3, 2, 0, 7200, 2, 11, 1, 0, 7200);
     f::posix_ambiguous(&tz, (y, m, d), (h, mi, sec, ns))
 }
+/// "EST5EDT,M3.2.0/0,M11.1.0/0": switches at local midnight (the fold starts on the previous civil day)
+pub fn k_posix_mid_ambiguous(y: i16, m: i8, d: i8, h: i8, mi: i8, sec: i8, ns: i32) -> (u8, i32, i32) {
+    let tz = f::posix_tz(-18000, -14400, 2, 3, 2, 0, 0, 2, 11, 1, 0, 0);
+    f::posix_ambiguous(&tz, (y, m, d), (h, mi, sec, ns))
+}
+/// "CAT-2WAT-1,M4.1.0,M9.1.0": negative DST (clocks go back at the start, forward at the end), not wrapping the year
+pub fn k_posix_neg_ambiguous(y: i16, m: i8, d: i8, h: i8, mi: i8, sec: i8, ns: i32) -> (u8, i32, i32) {
+    let tz = f::posix_tz(7200, 3600, 2, 4, 1, 0, 7200, 2, 9, 1, 0, 7200);
+    f::posix_ambiguous(&tz, (y, m, d), (h, mi, sec, ns))
+}
